@@ -108,15 +108,12 @@ def relational(W, cfg):
         good = [n for n, _ in fa] == [n for n, _ in fb]
         W.require(good, 'C11:%s-invisible' % variant, 'different structure')
         if good:
+            from .sampler_steps import require_same
             for (n, x), (_, y) in zip(fa, fb):
-                if isinstance(x, (tuple, str, bool)) or x is None or \
-                        isinstance(y, (tuple, str, bool)) or y is None:
-                    eq = (x == y)
-                elif W.symbolic:
-                    eq = ident(W, x, y)
+                if isinstance(x, bool) or isinstance(y, bool):
+                    W.require(x == y, 'C11:%s-invisible' % variant, n)
                 else:
-                    eq = W.same(x, y)
-                W.require(bool(eq), 'C11:%s-invisible' % variant, n)
+                    require_same(W, x, y, 'C11:%s-invisible' % variant, n)
         # returned values
         if isinstance(retA, bool) or isinstance(retB, bool) or W.symbolic:
             same_ret = ident(W, retA, retB) if W.symbolic else retA == retB
